@@ -41,7 +41,7 @@ func (c16) New() interface{} { return &C16Script{} }
 func (c16) Info() core.Info {
 	return core.Info{
 		Runs: map[string]int{"quick": 3000000, "thorough": 300000000},
-		Rule: "Each run is one scripted byte stream (garbage built from a menu of false sync bytes: AFC=00, reserved PID 4..15, runs of 0x47, headers cut by end of stream; then 0..3 packets and a tail) read by packet.Sync through a real bufio.Reader of scripted size or a no-read-ahead PeekScanner, over a SimReader whose every Read outcome (full/short/one byte/zero/data+EOF/transient or hard error) is scripted; plus a complete sweep of false-sync kind x bufio size 16..64 x header position 0..80 under one-byte reads. Non-trivial = at least one reach probe fired (false sync skipped, header straddling a refill, sync byte in the last 3 bytes, not-found, reader fault fired).",
+		Rule: "Each run is one scripted byte stream (garbage built from a menu of false sync bytes: AFC=00, reserved PID 4..15, runs of 0x47, headers cut by end of stream; then 0..3 packets and a tail) read by packet.Sync through a real bufio.Reader of scripted size or a no-read-ahead PeekScanner, over a SimReader whose every Read outcome (full/short/one byte/zero/data+EOF/transient or hard error) is scripted; plus a complete sweep of false-sync kind x bufio size 16..64 x header position 0..80 under one-byte reads, of every header whose three bytes after the sync byte are printable ASCII (857 375 words) and, in the thorough tier, of all 2^24 headers at the front of a stream. Garbage may end on a short context (start code, CR LF, stuffing) right before the header; 1 in 6 valid headers is printable ASCII. Non-trivial = at least one reach probe fired (false sync skipped, header straddling a refill, sync byte in the last 3 bytes, not-found, reader fault fired).",
 		Real: []string{"packet.Sync", "packet.IsSynced", "bufio.Reader (stdlib)", "io.ReadFull/io.ReadAll (stdlib)"},
 		Stub: []string{"SimReader (scripted io.Reader)", "exactScanner (harness PeekScanner without read-ahead)", "stream producer"},
 		Assumptions: []string{
@@ -93,8 +93,22 @@ func validPacket(r *core.Rand) []byte {
 		no47(p[1:])
 		p[3] = p[3]&^0x30 | byte(r.Range(1, 3))<<4
 	}
+	if r.Chance(1, 6) {
+		// a header that reads as printable ASCII ("GET ", "GIF8", "Gzip"...): still a header
+		for tries := 0; tries < 50; tries++ {
+			b1, b2, b3 := byte(r.Range(0x20, 0x7E)), byte(r.Range(0x20, 0x7E)), byte(r.Range(0x20, 0x7E))
+			pid := int(b1&0x1f)<<8 | int(b2)
+			if b3&0x30 != 0 && (pid < 4 || pid > 15) {
+				p[1], p[2], p[3] = b1, b2, b3
+				break
+			}
+		}
+	}
 	return p
 }
+
+// contexts that an implementation might treat specially right before a sync byte
+var c16Contexts = [][]byte{{0x00, 0x00, 0x01}, {0x00, 0x00, 0x00, 0x01}, {0x00, 0x00, 0x00}, {0xFF, 0xFF, 0xFF}, {0x0D, 0x0A, 0x0D, 0x0A}, {0x0A}, {0x00}, {0xFF}, {0x47, 0x1F, 0xFF}, {0xB8}, {0x00, 0x00, 0x01, 0xE0}, {0x00, 0x00, 0x01, 0xBA}}
 
 func falseSync(r *core.Rand, kind int) []byte {
 	switch kind {
@@ -193,6 +207,10 @@ func (c16) Gen(r *core.Rand, tier string) interface{} {
 	if r.Chance(1, 6) && len(st) > 0 {
 		no47(st) // a stream whose garbage has no sync byte at all
 	}
+	if r.Chance(1, 5) {
+		// the bytes right before whatever follows: start codes, line ends, stuffing
+		st = append(st, c16Contexts[r.Intn(len(c16Contexts))]...)
+	}
 	// packets
 	switch r.Intn(10) {
 	case 0: // nothing follows: not found (unless garbage happens to hold a header)
@@ -252,9 +270,46 @@ func min(a, b int) int {
 // sweep: false-sync kind (4) x bufio size 16..64 (49) x header position 0..80 (81), one-byte reads
 const c16Sweep = 4 * 49 * 81
 
-func (c16) SweepSize(tier string) int { return c16Sweep }
+// After the positional sweep: every header whose three bytes after the sync byte are printable
+// ASCII (95^3 words such as "GET ", "GIF8", "Gzip"), and in the thorough tier every one of the
+// 2^24 possible headers, at the front of a stream that continues with a plain packet. Whether
+// a word is a header is decided by the statement's rule alone (PID not 4..15, AFC not 0).
+const c16Printable = 95 * 95 * 95
+
+func (c16) SweepSize(tier string) int {
+	if tier == "thorough" {
+		return c16Sweep + c16Printable + 1<<24
+	}
+	return c16Sweep + c16Printable
+}
+
+func c16HeaderCase(b1, b2, b3 byte, lead int) *C16Script {
+	st := make([]byte, 0, lead+2*188)
+	for k := 0; k < lead; k++ {
+		st = append(st, byte(0x10+k))
+	}
+	pkt := make([]byte, 188)
+	pkt[0], pkt[1], pkt[2], pkt[3] = 0x47, b1, b2, b3
+	for k := 4; k < 188; k++ {
+		pkt[k] = byte(k) // never 0x47
+	}
+	st = append(st, pkt...)
+	pkt2 := make([]byte, 188)
+	copy(pkt2, pkt)
+	pkt2[1], pkt2[2], pkt2[3] = 0x01, 0x00, 0x10
+	st = append(st, pkt2...)
+	return &C16Script{Stream: st, Scanner: "bufio", BufSize: 4096, Default: "full"}
+}
 
 func (c16) SweepCase(tier string, i int) interface{} {
+	if i >= c16Sweep+c16Printable {
+		v := i - c16Sweep - c16Printable
+		return c16HeaderCase(byte(v>>16), byte(v>>8), byte(v), v%3)
+	}
+	if i >= c16Sweep {
+		v := i - c16Sweep
+		return c16HeaderCase(byte(0x20+v%95), byte(0x20+v/95%95), byte(0x20+v/95/95), v%3)
+	}
 	kind := i % 4
 	i /= 4
 	buf := 16 + i%49
